@@ -113,6 +113,69 @@ func genC07(c *Ctx) {
 		}
 		emit(n >= 2 && (w != "" || extra != ""), fmt.Sprintf("%s c=%d n=%d size=%d sync=0 mg=%d yield=%d%s%s script=-", op, cc, n, size, mg, c.Rng.Intn(3), w, extra))
 	}
+	// (e) hand-off under back-pressure: fill the stage (only source releases) until the channel is full, every worker is
+	//     inside its callback and the producer is parked in its NEXT Emit; then make the workers leave through the error
+	//     path (a failing callback / a consumer that stops / a cancel) and let the pending Emit fail with the ctx error:
+	//     the producer's hand-off of that error must not block (nobody is left to drain), the terminal must return
+	zeros := func(k int) []int { return make([]int, k) }
+	for cc := 1; cc <= c.Pick(3, 4); cc++ {
+		// concurrent consume: c in callbacks + c queued = 2c source releases, then pick the first callback
+		fill := append(zeros(2*cc), 1)
+		for _, trig := range []string{"mf=0", fmt.Sprintf("mf=%d", cc-1), "mp=0", fmt.Sprintf("cancel=%d", 2*cc)} {
+			emit(true, fmt.Sprintf("ccons c=%d n=%d sync=1 mg=1 sg=1 %s script=%s", cc, 2*cc+3, trig, concScript(fill)))
+		}
+		// concurrent map: c in mappers + c in srcChan, consumer gated: first delivery never happens before the trigger
+		for _, trig := range []string{"mf=0", "mp=0", fmt.Sprintf("cancel=%d", 2*cc), "cf=1", "limit=1"} {
+			emit(true, fmt.Sprintf("cmap c=%d n=%d sync=1 mg=1 cg=1 sg=1 %s script=%s", cc, 3*cc+4, trig, concScript(fill)))
+			emit(true, fmt.Sprintf("nest c=%d n=%d size=2 sync=1 mg=1 cg=1 sg=1 %s script=%s", cc, 3*cc+4, trig, concScript(fill)))
+		}
+		// Buffered: size-1 queued + 1 in hand, then the consumer stops / is cancelled while the filler is in Emit
+		for _, trig := range []string{"cf=1", "limit=1", fmt.Sprintf("cancel=%d", cc+2)} {
+			emit(true, fmt.Sprintf("buf c=1 n=%d size=%d sync=1 cg=1 sg=1 %s script=%s", cc+6, cc+1, trig, concScript(zeros(cc+3))))
+		}
+	}
+	// (f) a lifecycle element AFTER the asynchronous stage fails to open (error / panic), caller ctx never cancelled,
+	//     source longer than the buffers: the terminal returns the open error and every goroutine already started by
+	//     the stage must exit (doOpenStream cancels the materialisation ctx)
+	for _, of := range []string{"err", "panic"} {
+		for cc := 1; cc <= c.Pick(3, 4); cc++ {
+			for _, gates := range []string{"mg=0 sg=0", "mg=1 sg=0", "mg=0 sg=1"} {
+				emit(true, fmt.Sprintf("cmap c=%d n=%d sync=1 %s ofail=%s script=-", cc, 3*cc+4, gates, of))
+				emit(true, fmt.Sprintf("nest c=%d n=%d size=%d sync=1 %s ofail=%s script=-", cc, 3*cc+8, cc+1, gates, of))
+			}
+			for _, sg := range []int{0, 1} {
+				emit(true, fmt.Sprintf("buf c=1 n=%d size=%d sync=1 sg=%d ofail=%s script=-", 2*cc+4, cc+1, sg, of))
+				emit(true, fmt.Sprintf("buf c=1 n=%d size=%d sync=0 sg=%d yield=2 ofail=%s script=-", 2*cc+4, cc+1, sg, of))
+			}
+			emit(true, fmt.Sprintf("cmap c=%d n=%d sync=0 mg=0 yield=1 ofail=%s script=-", cc, 3*cc+4, of))
+		}
+	}
+	// (g) the SAME stream value materialised 2-3 times; a later materialisation ends early while the reader is parked
+	//     inside Emit (state kept in the provider object across materialisations shows from the second run on)
+	for _, op := range []string{"cmap", "ccons", "buf", "nest"} {
+		for rep := 2; rep <= 3; rep++ {
+			for n := 2; n <= 3; n++ {
+				for park := 1; park <= n; park++ {
+					ends := []string{"cancel=0", "cancel=1", fmt.Sprintf("se=%d", park-1)}
+					if op != "ccons" {
+						ends = append(ends, "limit=1", "cf=1", "first=1")
+					} else {
+						ends = append(ends, "mf=0")
+					}
+					for _, e := range ends {
+						for lf := 0; lf <= 1; lf++ {
+							emit(true, fmt.Sprintf("%s c=%d n=%d size=%d sync=1 mg=0 park=%d %s rep=%d lastfull=%d script=-", op, 1+n%2, n, 2+n%2, park, e, rep, lf))
+						}
+					}
+				}
+			}
+			// complete runs, several times
+			emit(true, fmt.Sprintf("%s c=2 n=5 size=3 sync=1 mg=0 rep=%d lastfull=1 script=-", op, rep))
+			if op == "cmap" || op == "ccons" {
+				emit(true, fmt.Sprintf("%s c=2 n=5 sync=1 mg=1 rep=%d script=1,0,1,0,0", op, rep))
+			}
+		}
+	}
 	// (d) the racy recipes, a few trials each (the corpus runs them with many trials)
 	emit(true, "buf c=1 n=20 size=3 sync=1 filt=d7 trials=20 script=-")
 	emit(true, "cmap c=1 n=3 sync=1 mg=1 filt=d7 trials=40 script=-")
